@@ -5,6 +5,7 @@ package sm2
 import (
 	"bytes"
 	"fmt"
+	"math/big"
 	"runtime"
 	"sync"
 	"sync/atomic"
@@ -74,7 +75,7 @@ func TestVerifC17SM2(t *testing.T) {
 				<-start
 				for it := 0; it < iters; it++ {
 					sh := keys[lr.Intn(len(keys))]
-					kind := lr.Intn(7)
+					kind := lr.Intn(8)
 					n := atomic.AddInt64(&inflight, 1)
 					if n > 1 {
 						atomic.AddInt64(&overlapped, 1)
@@ -125,6 +126,23 @@ func TestVerifC17SM2(t *testing.T) {
 							}
 							if TestPrivateKey(sh.priv.B) != 0 || !CheckOnCurve(sh.px.B, sh.py.B) {
 								bad = "TestPrivateKey/CheckOnCurve"
+							}
+						case 6:
+							// crafted, invalid signatures with (r+s) mod n tiny or s tiny: must stay rejected and
+							// must not disturb anybody else
+							tv := bi(int64(1 + lr.Intn(9000)))
+							sv := new(big.Int).SetBytes(lr.Bytes(32))
+							sv.Mod(sv, ref.SM2N)
+							if lr.Intn(2) == 0 {
+								sv = new(big.Int).Lsh(bi(1), uint(5+lr.Intn(240)))
+							}
+							rr := ref.ModN(new(big.Int).Sub(tv, sv))
+							if rr.Sign() != 0 && sv.Sign() != 0 {
+								e := lr.Bytes(32)
+								ok, _ := VerifyHashed(sh.px.B, sh.py.B, e, ref.B32(rr), ref.B32(sv))
+								if ok != ref.SM2Verify(sh.px.B, sh.py.B, e, ref.B32(rr), ref.B32(sv)) {
+									bad = "VerifyHashed-crafted"
+								}
 							}
 						default:
 							// independent hash values used concurrently
